@@ -5,6 +5,7 @@
 package keepclient
 
 import (
+	"fmt"
 	"io"
 	"sort"
 	"strconv"
@@ -89,6 +90,14 @@ func (c *BlockCache) Get(kc *KeepClient, locator string) ([]byte, error) {
 		go func() {
 			rdr, size, _, err := kc.Get(locator)
 			var data []byte
+			if err == nil && (size < 0 || size > int64(bufsize)) {
+				// Without a usable size hint the size comes from
+				// the server's Content-Length header: a value
+				// larger than a block must end in an error, not
+				// in a makeslice panic that kills the process.
+				rdr.Close()
+				err = fmt.Errorf("error reading %q: response size %d exceeds buffer size %d", locator, size, bufsize)
+			}
 			if err == nil {
 				data = make([]byte, size, bufsize)
 				_, err = io.ReadFull(rdr, data)
